@@ -301,9 +301,97 @@ def check_value(v, part, widths):
                                                    'expected_ast': ast.unparse(ast.Expression(expected(tree.body, v, 0, d, False, st)))})
 
 
+class Narrow:
+    """A user type whose printer narrows a setting *on its own nested context* (as the bundled numpy
+    printer does with max_seq_len): that must stay its own business at every depth, None included."""
+
+    def __init__(self, x):
+        self.x = x
+
+    def __verif_expr__(self):
+        return 'Narrow(%s)' % oracles.expr_of(self.x)
+
+    def __eq__(self, other):
+        return type(other) is Narrow and other.x == self.x
+
+    def __hash__(self):
+        return hash(('Narrow', self.x))
+
+
+def ensure_narrow():
+    if 'narrow' in _sn:
+        return
+    from prettyprinter import register_pretty, pretty_call_alt
+
+    @register_pretty(Narrow)
+    def pretty_narrow(v, ctx):
+        own = ctx.nested_call()
+        own.max_seq_len = 1
+        own.sort_dict_keys = True
+        return pretty_call_alt(own, Narrow, args=(v.x,))
+    _sn.append('narrow')
+
+
+def mutating_values():
+    import collections, types
+    sib = [3, 1, 2]
+    dsib = {'b': 1, 'a': 2}
+    for N in (Narrow(5), Narrow([7, 8, 9])):
+        for S in (sib, dsib):
+            yield Call(N, S)
+            yield Call(S, N)
+            yield Call(a=N, b=S)
+            yield fixtures.NT(N, S)
+            yield SelfNest(N, S)
+            yield [N, S]
+            yield (N, S)
+            yield {'x': N, 'y': S}
+            yield [Call(N), S]
+            yield Call(Call(N), S)
+            yield Call([N], S)
+
+
+def check_mutating(part):
+    env = dict(fixtures.namespace())
+    env.update({'SelfNest': SelfNest, 'Narrow': Narrow})
+    SelfNest.__eq__ = lambda a, b: type(b) is SelfNest and a.args == b.args
+    for v in mutating_values():
+        for depth in (None, 50, 6):
+            for width in (20, 79):
+                part.n += 1
+                cfg = {'depth': depth, 'width': width}
+                case = {'value': oracles.expr_of(v), 'config': cfg, 'kind': 'mutating-printer'}
+                r = oracles.run_pformat(v, **cfg)
+                if r.exc is not None or r.warnings:
+                    part.violation('exception', case, r.exc or r.warnings[:1])
+                    continue
+                # Narrow's own argument is truncated by its own printer; everything else must be complete
+                want = oracles.run_pformat(v, depth=49, width=width).text
+                try:
+                    tree = oracles.parse_expr(r.text)
+                except SyntaxError as e:
+                    part.violation('not-parsable', case, {'output': r.text, 'why': str(e)})
+                    continue
+                consts = sorted(n.value for n in ast.walk(tree) if isinstance(n, ast.Constant) and isinstance(n.value, int))
+                exp = sorted([1, 2, 3] if (isinstance(v, (list, tuple)) and any(x == [3, 1, 2] for x in v)) or '[3, 1, 2]' in case['value'] else [1, 2])
+                rest = [c for c in consts if c in (1, 2, 3)]
+                dict_order_ok = ("'b': 1" not in r.text) or r.text.index("'b': 1") < r.text.index("'a': 2")
+                if r.text != want or rest != exp or not dict_order_ok:
+                    part.violation('wrong-cut', case, {'output': r.text, 'same_value_at_depth_49': want,
+                                                       'sibling_elements_found': rest, 'expected': exp})
+                else:
+                    part.nontrivial += 1
+    part.c['mutating_printer_values'] += 1
+
+
 def work(item):
     fixtures.register()
     ensure_selfnest()
+    ensure_narrow()
+    if item[0] == 'mutating':
+        part = core.Part()
+        check_mutating(part)
+        return part
     nmax, maxh, kname, lo, hi = item
     kinds = KINDS if kname == 'full' else KINDS_REDUCED
     part = core.Part()
@@ -326,6 +414,10 @@ def run(tier, seed):
         total = sum(1 for _ in gen_values(nmax, maxh, kinds))
         items += [(nmax, maxh, kname, lo, hi) for lo, hi in core.chunks(total, 96)]
         desc.append('trees with <= %d nodes, height <= %d, %s kinds (%d): %d values' % (nmax, maxh, kname, len(kinds), total))
+    items.append(('mutating',))
+    desc.append('%d values in which a printer that narrows max_seq_len / sort_dict_keys on its own nested context sits '
+                'next to a longer sibling (call args, kwargs, namedtuple, list, tuple, dict, self-nesting printer) x depth '
+                '{None, 50, 6} x widths {20, 79}: the sibling is complete and depth=None equals a large depth' % sum(1 for _ in mutating_values()))
     res.add(core.pmap(work, items))
     res.coverage = {
         'exhaustive': True,
@@ -345,6 +437,12 @@ def replay(case):
     env = dict(fixtures.namespace())
     env.update({c.__name__: c for cs in fixtures.SUBCLASSES.values() for c in cs})
     env.update({'SelfNest': SelfNest, 'NT': fixtures.NT})
+    if case.get('kind') == 'mutating-printer':
+        ensure_narrow()
+        part = core.Part()
+        check_mutating(part)
+        mine = [x for x in part.violations if x['case'] == case]
+        return not mine, '\n'.join(['value: %s' % case['value'], 'config: %s' % case['config']] + ['violation kind=%s detail=%s' % (x['kind'], x['detail']) for x in mine])
     v = eval(case['value'], env)
     part = core.Part()
     check_value(v, part, (case['config']['width'],))
